@@ -12,7 +12,10 @@ Local Open Scope string_scope. Local Open Scope list_scope.
 Inductive odeps := ODeps (d : list string) | OErr (e : perr) | OOther.
 Inductive oeval := OEval (ok : bool) (reads : list string) | ONoEval.
 
-Inductive ccase := CCase (lib : stmt) (ps : list part) (inp : list (string * ival)) (d : odeps) (e : oeval).
+(* [frag] = the harness' claim that the case lies in the fragment of C31_sound_partial (no library, every JS part
+   in_fragment); the claim is re-computed here, so the count reported in the evidence is the model's own. *)
+Inductive ccase :=
+  CCase (lib : stmt) (ps : list part) (inp : list (string * ival)) (d : odeps) (e : oeval) (frag : bool).
 
 Definition fuel : nat := 200.
 
@@ -59,10 +62,29 @@ Definition check_eval (lib : stmt) (ps : list part) (inp : list (string * ival))
       end
   end.
 
+Definition case_in_fragment (lib : stmt) (ps : list part) : bool :=
+  match lib with SSkip => forallb (fun p => match p with PJs body => in_fragment body | _ => true end) ps | _ => false end.
+
+(* inside the fragment the theorem's conclusion is also checked on the observations themselves: the analysis did not
+   fail and the observed reads of a successful evaluation are observed dependencies *)
+Definition frag_consequence (frag : bool) (d : odeps) (e : oeval) : bool :=
+  if frag then
+    match d, e with
+    | ODeps o, OEval true reads => incl_b reads o
+    | ODeps _, _ => true
+    | _, _ => false
+    end
+  else true.
+
 Definition check_case (c : ccase) : bool :=
-  match c with CCase lib ps inp d e => check_deps lib ps d && check_eval lib ps inp e end.
+  match c with
+  | CCase lib ps inp d e frag =>
+      check_deps lib ps d && check_eval lib ps inp e && Bool.eqb (case_in_fragment lib ps) frag
+      && (negb (forallb (fun p => match p with PJs _ => true | PText _ => true | PRef _ _ => false end) ps)
+          || frag_consequence frag d e)
+  end.
 
 (* how many of the evaluations were actually compared (evidence only) *)
 Definition eval_modelled (c : ccase) : bool :=
-  match c with CCase lib ps inp _ (OEval _ _) => match eval_parts inp lib ps [] with Some _ => true | None => false end
+  match c with CCase lib ps inp _ (OEval _ _) _ => match eval_parts inp lib ps [] with Some _ => true | None => false end
           | _ => false end.
